@@ -6,6 +6,8 @@ import NxModel.DriverUtil
   react <hex datagram> <hres>                   -> send <hex> | silent | propagate | notreq | crash <Err>
   gen <protocol> <method> <extract> <user>      -> <hres>             (generated dispatch only)
   full <hex datagram> <extract> <user>          -> <hres> => <reaction>
+  sbegin                                        -> ok     a new connection (request sequence) starts
+  sreq <hex datagram> <extract> <user>          -> <hres> => <reaction> | dead    its next request, through `serveStep` (= `serve`)
   hres    = ret:<hex> | <exc>          exc = rmc:<int> | type | index | memory | key | other | base
   extract = ok | <exc>                 user = stub | raise:<exc> | ret:<good|wrong|missing>:<hres>
 -/
@@ -68,7 +70,11 @@ def findServer (p : Nat) : List Server → Option Server
   | [] => none
   | s :: r => if s.protocol = p then some s else findServer p r
 
-def stepLine (tbl : List Server) (line : String) : List Server × String :=
+structure D where
+  tbl : List Server
+  alive : Bool
+
+def stepTbl (tbl : List Server) (line : String) : List Server × String :=
   match line.splitOn " " with
   | ["clear"] => ([], "ok")
   | ["srv", p, nr, ms] =>
@@ -107,4 +113,27 @@ def stepLine (tbl : List Server) (line : String) : List Server × String :=
     | _, _, _ => (tbl, "bad-op")
   | _ => (tbl, "bad-op")
 
-def main : IO Unit := runState ([] : List Server) stepLine
+/-- `sbegin` starts a connection; `sreq <hex> <extract> <user>` is its next request, answered through
+    `serveStep` (= `serve` over the whole sequence so far): `<hres> => <reaction>` or `dead`. -/
+def stepLine (d : D) (line : String) : D × String :=
+  match line.splitOn " " with
+  | ["sbegin"] => ({ d with alive := true }, "ok")
+  | ["sreq", h, ex, u] =>
+    match fromHex h, parseExtract ex, parseUser u with
+    | some data, some ex, some u =>
+      match decode data with
+      | .error e => (d, "crash " ++ e.name)
+      | .ok m =>
+        if m.mode ≠ 0 then (d, "notreq") else
+        let hres : Option HandleResult := match findServer m.protocol d.tbl, m.method with
+          | some srv, some mid => some (generatedHandle srv mid ex u)
+          | _, _ => none
+        let (alive', r) := serveStep (registryOf d.tbl) d.alive (m, hres.getD (.returned []))
+        ({ d with alive := alive' },
+         match r with
+         | none => "dead"
+         | some r => (match hres with | some h => showHres h | none => "nosrv") ++ " => " ++ showReaction r)
+    | _, _, _ => (d, "bad-op")
+  | _ => let (t, o) := stepTbl d.tbl line; ({ d with tbl := t }, o)
+
+def main : IO Unit := runState ({ tbl := [], alive := true } : D) stepLine
